@@ -53,6 +53,9 @@ def _replay_specific(req):
         r2 = rollback_cases(req)
         r2['evaluations'] = r2.get('evaluations', 0) + r.get('evaluations', 0)
         return r2
+    if func.split('#')[0] in ('cache.Cache._operation_to_json', 'cache.Cache._simple_operation_to_json',
+                              'cache.Cache._complex_operation_to_json'):
+        return serialiser_cases(req)
     if func.split('#')[0] in ('cache.Cache.use_cached_operation', 'cache.Cache._assert_no_repeats',
                               'cache.Cache._use_cached_operation'):
         return reuse_registration_cases(req)
@@ -755,6 +758,78 @@ def reuse_registration_cases(req):
                                          'registered, nothing else',
                                 'observed': {'raised': repr(err), 'records_not_registered': missing,
                                              'other_entries': extra}}
+    return {'reproduced': False, 'evaluations': n}
+
+
+# -------------------------------------------------------------------------------------------------
+def serialiser_cases(req):
+    """C16, the hand-written (de)serialisers on the real class (round 4): records of the three
+    classes with return values / arguments from a pool that includes every falsy JSON value,
+    failure flags and exception names; the record written by `_operation_to_json`, passed through
+    json text and read back by `_operation_from_json` is compared field by field (exact types)
+    with the original.  Only the round trip is judged -- the statement of C16 -- not the layout
+    of the JSON: a change of format that both halves agree on is not a failing input"""
+    import itertools
+    import json
+    from file_builder.cache import Cache
+    from file_builder.operation import BuildFileOperation, SubbuildOperation, SimpleOperation
+    from file_builder.file_comparison import FileComparison
+    pool = [None, 0, False, '', [], {}, 'x', 1.5, 10 ** 30, 'na\u00efve \u2603', [0, [None]],
+            {'k': False}]
+    c = Cache.create_empty_mutable('n', {})
+    n = 0
+
+    def bad(what, op_desc, observed):
+        return {'reproduced': True, 'input': op_desc, 'check': what, 'observed': observed,
+                'evaluations': n}
+
+    def same(a, b):
+        return type(a) is type(b) and a == b
+
+    for rv in pool:
+        for exc in (None, 'FileNotFoundError', 'IsADirectoryError'):
+            n += 1
+            op = SimpleOperation('read_text', ['/x/a', rv], rv, exc, True)
+            j = c._operation_to_json(op)
+            desc = 'SimpleOperation(read_text, args=%r, return_value=%r, exception=%r)' % (
+                op.args, rv, exc)
+            back = Cache._operation_from_json(json.loads(json.dumps(j)), {}, {})
+            if not (isinstance(back, SimpleOperation) and same(back.args, op.args)
+                    and same(back.return_value, rv) and back.name == 'read_text'
+                    and back.exception_type_str == exc and back.is_finished):
+                return bad('a simple record survives write/read', desc, vars(back))
+    for rv, kw in itertools.product(pool, [{}, {'z': 0, 'a': None}]):
+        for raised, sf in ((False, False), (True, False), (True, True)):
+            for kind in ('b', 's'):
+                n += 1
+                child = SimpleOperation('is_file', ['/x/q'], False, None, True)
+                if kind == 'b':
+                    op = BuildFileOperation('/x/d \u00e9/.f', FileComparison.HASH, 'fn', [rv], kw,
+                                            [child], rv, rv if rv is not None else 'r', raised, sf,
+                                            True)
+                else:
+                    op = SubbuildOperation('fn', [rv], kw, [child], rv, raised, sf, True)
+                j = c._operation_to_json(op)
+                desc = '%s(args=%r, kwargs=%r, return_value=%r, raised=%r, setup_failed=%r)' % (
+                    type(op).__name__, op.args, kw, rv, raised, sf)
+                files, subs = {}, {}
+                back = Cache._operation_from_json(json.loads(json.dumps(j)), files, subs)
+                ok = (type(back) is type(op) and same(back.args, op.args)
+                      and same(back.kwargs, kw) and back.func_name == 'fn'
+                      and same(back.return_value, rv) and back.raised == raised
+                      and back.setup_failed == sf and back.is_finished
+                      and len(back.suboperations) == 1
+                      and isinstance(back.suboperations[0], SimpleOperation))
+                if ok and kind == 'b':
+                    ok = (back.filename == op.filename
+                          and back.file_comparison is FileComparison.HASH
+                          and same(back.file_comparison_result, op.file_comparison_result)
+                          and ((op.filename in files) == (not sf)))
+                if ok and kind == 's':
+                    ok = (len(subs) == 1) == (not sf)
+                if not ok:
+                    return bad('a build-file / subbuild record survives write/read', desc,
+                               {k: repr(v) for k, v in vars(back).items()})
     return {'reproduced': False, 'evaluations': n}
 
 
@@ -2353,7 +2428,7 @@ def property_templates(pid):
         'C13': [comparison_cases],
         'C14': [failed_setup_cases, failed_reuse_case, rollback_cases],
         'C15': [refusal_cases],
-        'C16': [rollback_cases, refusal_cases],
+        'C16': [rollback_cases, refusal_cases, serialiser_cases],
         'C17': [fence_cases],
         'C18': [],
     }
